@@ -646,9 +646,15 @@ class DbusViewMonitor(Monitor):
         for (idx, side) in enumerate(SIDES):
             proc = world.procs[side]
             fin = [b for (b, _r) in self.finished[side]]
-            for bid in self.started[side]:
-                if fin.count(bid) != 1 and not conn.closed[idx]:
-                    pass
+            # nothing can happen any more: a transfer the peer has announced as received must have
+            # been reported finished to the sending user (transfers complete in the order queued)
+            other = SIDES[1 - idx]
+            arrived = len(self.announced[other])
+            for (k, (bid, _d)) in enumerate(self.queued[side]):
+                if k < arrived and fin.count(bid) != 1:
+                    out.append(self._v(world, 'received-transfer-never-reported-finished', dict(),
+                                       '%s: transfer %s was announced by the peer (%d received) but has %d finished signals'
+                                       % (side, bid, arrived, fin.count(bid))))
             if PATH in proc.bus._objects and not conn.closed[idx]:
                 # everything drained and the session still up: idle must be reported
                 pend = [b for (b, _d) in self.queued[side] if b not in fin]
